@@ -638,6 +638,7 @@ part_gh!(part_gh_f32, f32);
 part_gh!(part_gh_f64, f64);
 
 pub fn run_more(out: &mut Out, rng: &mut Rng, tier: &str) {
+    crate::wp_published::run(out, "C02");   // constants of white_point.rs against the published table (witness for a wrong literal)
     let n = if tier == "thorough" { 4_000 } else { 120 };
     part_ab_f32(out, rng, n); part_ab_f64(out, rng, n);
     part_c_f32(out, rng, n); part_c_f64(out, rng, n);
